@@ -123,6 +123,7 @@ def gen_op(rng, rows, fresh):
     n = len(rows)
     lens = [len(r) for r in rows]
     ops = ['elem', 'elem', 'paired_reuse', 'row_same', 'row_diff',
+           'row_same_x', 'swap_rows',
            'int_slice', 'twod_scalar',
            'twod_rows', 'twod_ra', 'slice_int', 'mask_scalar', 'mask_vals',
            'paired', 'append_list', 'append_ra', 'binop', 'rbinop', 'cmp',
@@ -135,6 +136,18 @@ def gen_op(rng, rows, fresh):
     if op == 'row_same':
         r = int(rng.integers(-n, n))
         return op, (r, fresh.take(lens[r]))
+    if op == 'row_same_x':
+        # a row of the same length whose values the array's element type
+        # cannot hold (fractions into an integer array)
+        r = int(rng.integers(-n, n))
+        return op, (r, fresh.take(lens[r]).astype(np.float64) + 0.5)
+    if op == 'swap_rows':
+        # two row assignments that exchange two rows (lengths usually
+        # differ): row count and element count are the same afterwards
+        if n < 2:
+            return 'row_same', (0, fresh.take(lens[0]))
+        r1, r2 = (int(x) for x in rng.choice(n, size=2, replace=False))
+        return op, (r1, r2)
     if op == 'row_diff':
         r = int(rng.integers(-n, n))
         # a length-1 value legitimately broadcasts over a rectangular row
@@ -293,6 +306,22 @@ def run_case(ctx, kind, rng, idx):
                 r, v = args
                 new_rows[r] = v.copy()
                 a[r] = v.copy()
+            elif op == 'row_same_x':
+                r, v = args
+                new_rows[r] = v.copy()
+                # the array has one element type: that of the concatenated
+                # model rows
+                rt = np.result_type(*[x.dtype for x in new_rows])
+                new_rows = [x.astype(rt) for x in new_rows]
+                a[r] = v.copy() if step % 2 else v.tolist()
+            elif op == 'swap_rows':
+                r1, r2 = args
+                x1, x2 = rows[r1].copy(), rows[r2].copy()
+                new_rows[r1], new_rows[r2] = x2.copy(), x1.copy()
+                a[r1] = x2
+                a[r2] = x1
+                if len(x1) != len(x2):
+                    structural = True
             elif op == 'int_slice':
                 r, s, v = args
                 new_rows[r][s] = v
@@ -456,7 +485,10 @@ def run_case(ctx, kind, rng, idx):
             kinds.add(op)
             if op == 'row_diff' and len(args[1]) != len(rows[args[0]]):
                 structural = True
-            rows = new_rows
+            # one element type for the whole array: that of the
+            # concatenated model rows
+            rt = np.result_type(*[x.dtype for x in new_rows])
+            rows = [x if x.dtype == rt else x.astype(rt) for x in new_rows]
         bad += observe(ctx, a, rows, op)
         if src_keep is not None and not np.array_equal(srcs, src_keep):
             bad.append(('ra.copy.aliases-source',
